@@ -66,6 +66,8 @@ REG(r12, "c06.n3s2k4", 3, dom::Sigma2(), 4, true, "dense members of TA(3,{a:0,b:
 REG(r13, "c06.n3s3pk4", 3, dom::Sigma3p(), 4, true, "dense members of TA(3,{a:0,f:1,g:2},<=4), all registration orders")
 REG(r14, "c06.n4agk3", 4, dom::SigmaAG(), 3, true, "dense members of TA(4,{a:0,g:2},<=3), both registration orders")
 REG(r15, "c06.n3afhk3", 3, dom::SigmaAFH(), 3, true, "dense members of TA(3,{a:0,f:1,h:3},<=3), all registration orders (ternary symbol)")
+REG(r16, "c06.n3abfk5", 3, dom::SigmaABF(), 5, true, "dense members of TA(3,{a:0,b:0,f:1},<=5), all registration orders (word-like)")
+REG(r17, "c06.n4abfk4", 4, dom::SigmaABF(), 4, true, "dense members of TA(4,{a:0,b:0,f:1},<=4), all registration orders")
 REG(s2, "c06.sparse.n3s2k3", 3, dom::Sigma2(), 3, false, "NON-dense members (a state below the largest unused) of TA(3,{a:0,b:0,g:2},<=3)")
 REG(s1, "c06.sparse.n2s2k3", 2, dom::Sigma2(), 3, false, "NON-dense members (state 0 unused) of TA(2,{a:0,b:0,g:2},<=3)")
 
